@@ -37,13 +37,21 @@ RULE = ("seeded generator. (a) sequential call sequences (15-45 calls) on the re
         "Connect/Disconnect by client address), and the listing keeps counting the live authenticated connections. On EVERY e2e script, "
         "after every step: per user no prefix of the recorded LogOnlineState calls has more offline than online, per client address Connect and "
         "Disconnect alternate starting with Connect, and at the quiescent point #online - #offline = live authenticated connections. "
+        "SLOW / HANGING OUTBOUND DIALS (4 directed scripts per run + random ones): scripts with `hang` steps run the server over a gated "
+        "Outbound (everything else goes to the stock direct outbound): 1-3 TCP requests of a connection sit in Outbound.TCP, or its UDP "
+        "session manager sits in Outbound.UDP (the datagram is reported on receipt), and meanwhile the connection ends - closed by the client, "
+        "or kicked through the refused report of another, working flow - with and without another live connection of the user; the dials are "
+        "released (they fail) while the connection is alive, after it is long gone, or never within the case: GET /online must drop the "
+        "connection within the same bound (15 s) as after every other disconnect, one offline notification, the other connections unaffected. "
         "Non-trivial = a sequence with a refused report and >= 2 snapshots, a history with really overlapping calls, a stress run with clears, "
-        "an e2e run with a refusal.")
+        "an e2e run with a refusal or with pending dials.")
 ASSUMPTIONS = [
     "sync.RWMutex gives mutual exclusion between a write section and every other section (runtime, not modelled); each method body is one section",
     "encoding/json (Marshal of the maps, Decoder.Decode of the kick body), net/url query parsing and net/http's ResponseWriter are libraries: the model takes the decoded id list / query value as input",
     "online/offline notifications are paired by the server (once per accepted auth, once when that connection's handler returns): hypothesis `paired` of C15_online_exact; proved of the world model of core/server (C15_notifications_paired: auth handler in atomic steps, connection dying at any point of them), DISCHARGED for every run of C01's server model (C15_paired_from_C01_run, C15_online_listing_after_C01_run: the listing after any C01 run = connections authenticated with that id and not yet closed; coq/proof/C15_FromC01.v) and checked end to end on every e2e script - each recorded e2e event sequence must also be a run of C01's model whose LogOnlineState calls, fed to this object's model, give the recorded GET /online listings (c01_world_check in corr/C15_Corr.v)",
-    "http3.Server.ServeQUICConn returns only after every request handler it started has returned (handleConn: wg.Wait): in the model handleClient's continuation is not enabled while an auth handler of the connection is in flight",
+    "http3.Server.ServeQUICConn returns only after every request handler it started has returned (handleConn: wg.Wait): in the model handleClient's continuation is not enabled while an auth handler of the connection is in flight; "
+    "the goroutines of HIJACKED streams (handleTCPRequest, one per proxied TCP request) and the UDP session manager are NOT among them: handleClient's continuation - the offline notification - does not depend "
+    "on them (model/C15_Pending.v, C15_offline_does_not_wait_for_request_goroutines; observed end to end with outbound dials that never return)",
     "after quic.Conn.CloseWithError no stream or datagram of that connection carries bytes any more and http3's ServeQUICConn returns (quic-go; modelled as: a closed connection makes no report, its handler may return); observed end to end on every refused step",
     "TCP sites: the refusing copy direction's errDisconnect is the first value to reach copyTwoWayEx's channel (hypothesis `other_first = false` of the site theorems; the other case is C06's open finding veto-swallowed-other-direction-returned-first)",
     "fewer than 2^63 online notifications per user (Go int wrap), stated as a hypothesis of the online theorems",
@@ -307,6 +315,7 @@ class E2EScript:
         self.nslot = self.nflow = 0
         self.pending = set()
         self.raws = {}        # raw HTTP/3 connections: slot -> id
+        self.hung = {}        # slot -> kinds of its pending outbound dials
 
     def connect(self, i):
         self.steps.append({"a": "connect", "slot": self.nslot, "id": i})
@@ -351,6 +360,26 @@ class E2EScript:
                            "settle_ms": settle or self.rng.choice([80, 120, 200]), "proto": auth_proto()})
         return [c["slot"] for c in cs]
 
+    def hang(self, s, kind=None, n=None):
+        """proxy requests of connection s whose OUTBOUND DIAL does not return: kind tcp = n (1-3) TCP requests, each a
+        handleTCPRequest goroutine inside Outbound.TCP; kind udp = one datagram of n bytes on a fresh UDP session (reported
+        on receipt, then the connection's UDP session manager sits in Outbound.UDP: no more UDP on that connection).  The
+        dials stay pending - across the end of the connection - until release(s) or the end of the script."""
+        i = self.slots[s]
+        if kind is None:
+            kind = self.rng.choice(["tcp", "tcp", "udp"])
+        if kind == "udp" and (i in self.pending or "udp" in self.hung.get(s, [])):
+            kind = "tcp"
+        if n is None:
+            n = self.rng.choice([1, 1, 2, 3]) if kind == "tcp" else self.rng.choice(UDP_N)
+        self.steps.append({"a": "hang", "slot": s, "kind": kind, "n": n})
+        self.hung.setdefault(s, []).append(kind)
+
+    def release(self, s):
+        """the pending dials of connection s fail now (dial timeout); the connection, if still there, is unaffected"""
+        self.steps.append({"a": "release", "slot": s})
+        self.hung.pop(s, None)
+
     def drop(self, s):
         del self.slots[s]
         for f in [f for f, v in self.flows.items() if v[0] == s]:
@@ -392,6 +421,8 @@ class E2EScript:
     def site(self, s, kind, d, established=None):
         """make the next report of slot s come from site (kind, d), on an established flow or a fresh one.
         Returns False when that is not possible in the current state."""
+        if kind == "udp" and "udp" in self.hung.get(s, []):
+            return False      # the connection's UDP session manager sits in a pending Outbound.UDP
         old = [f for f, v in self.flows.items() if v[0] == s and v[1] == kind and (v[2] or not (kind == "udp" and d == "down"))]
         if established is None:
             established = bool(old) and self.rng.random() < 0.5
@@ -437,6 +468,52 @@ def gen_e2e_directed(rng):
             if rng.random() < 0.5:
                 sc.close(b)
             out.append(sc.case())
+    return out
+
+
+def gen_e2e_hang(rng):
+    """SLOW / HANGING OUTBOUND DIALS: a connection has proxy requests whose dial does not return (1-3 TCP requests inside
+    Outbound.TCP, or a UDP session inside Outbound.UDP) when it ends - closed by the client, or kicked (the refused report
+    comes from another, working flow of the connection) - with and without another live connection of the same user, next
+    to another user's traffic; the dials are released later or never within the case.  The listing must drop the connection
+    within the bound of every other disconnect, whatever is still pending; dials that fail while the connection is alive do
+    not disturb it."""
+    out = []
+    for variant in range(4):
+        sc = E2EScript(rng, rng.choice(["", "s3cret"]), ["alice", "bob"])
+        a = sc.connect(0)
+        b = sc.connect(1)
+        a2 = sc.connect(0) if rng.random() < 0.5 else None
+        fa = None
+        if variant in (1, 3) or rng.random() < 0.5:
+            fa = sc.new_flow(a, "tcp")                           # an established, working flow next to the pending ones
+            sc.move(fa, rng.choice(["up", "down"]))
+        fb = sc.new_flow(b, rng.choice(["tcp", "udp"]))
+        sc.move(fb, "up")
+        kind = "udp" if variant == 2 else "tcp"
+        sc.hang(a, kind)
+        if rng.random() < 0.4:
+            sc.hang(a, "tcp")                                    # more of them, started later
+        if variant == 3:
+            sc.release(a)                                         # the dials fail while the connection is alive ...
+            sc.move(fa, rng.choice(["up", "down"]))               # ... which goes on working
+            sc.hang(a, "tcp")
+        if variant == 1:
+            sc.kick(0)                                            # ended by the server: the refused report of a working flow
+            assert sc.site(a, "tcp", rng.choice(["up", "down"]), established=rng.random() < 0.5) and a not in sc.slots
+        else:
+            sc.close(a)                                           # ended by the client, dials pending
+        sc.move(fb, rng.choice(["up", "down"]) if sc.flows[fb][1] == "tcp" else "up")   # the others are not affected
+        if a2 is not None:
+            sc.site(a2, *rng.choice(SITES[:3]), established=False)
+            if rng.random() < 0.5:
+                sc.hang(a2, "tcp")
+                sc.close(a2)
+        if rng.random() < 0.5:
+            sc.release(a)                                         # released after the connection is long gone
+        c = sc.connect(0)                                         # the user comes back and is counted once
+        sc.site(c, *rng.choice(SITES[:3]), established=False)
+        out.append(sc.case())
     return out
 
 
@@ -547,7 +624,10 @@ def gen_e2e(rng):
         elif r < 0.32:
             sc.reject()
         elif r < 0.45:
-            sc.close(rng.choice(list(sc.slots) + list(sc.raws)))
+            s = rng.choice(list(sc.slots) + list(sc.raws))
+            if s in sc.slots and rng.random() < 0.35:
+                sc.hang(s)                                       # the connection ends with outbound dials pending
+            sc.close(s)
         elif r < 0.8:
             s = rng.choice(list(sc.slots))
             i = sc.slots[s]
@@ -610,6 +690,16 @@ def e2e_term(c, o):
             terms.append("WE (EClientClose %d) WUnit" % st["slot"])
         elif a == "kick":
             terms.append("WE (wrq %s \"POST\" \"/kick\" \"\" (Some [%d])) (WHttp 200 BEmpty)" % (cstr(sec), st["id"]))
+        elif a == "hang" and res == "ok":
+            # the datagram of a hung UDP session is reported on receipt; the dials are request goroutines of the
+            # connection that stay in flight (model/C15_Pending.v)
+            for (_, tx, rx, acc) in ob.get("reports") or []:
+                terms.append("WE (EReport %d UdpUp %d false) (WBool %s)" % (st["slot"], tx, "true" if acc else "false"))
+            terms.append("WReq %d %d" % (st["slot"], st["n"] if st["kind"] == "tcp" else 1))
+        elif a == "release" and res == "ok":
+            terms.append("WRel %d" % st["slot"])
+            if ob.get("alive") is not None:
+                terms.append("WAlive %d %s" % (st["slot"], "true" if ob["alive"] else "false"))
         elif a in ("tcp", "udp") and res in ("ok", "refused"):
             for (_, tx, rx, acc) in ob.get("reports") or []:
                 site = ("Tcp" if a == "tcp" else "Udp") + ("Up" if (tx > 0 or (rx == 0 and st["dir"] == "up")) else "Down")
@@ -638,6 +728,7 @@ def gen(rng, tier):
         cases += gen_e2e_directed(rng)
         cases += gen_e2e_multi_auth(rng)
         cases += gen_e2e_pending(rng)
+        cases += gen_e2e_hang(rng)
     for _ in range(10 if tier == "quick" else 60):
         cases.append(gen_e2e(rng))
     for _ in range(160 * scale):
@@ -727,8 +818,9 @@ def klass(c, o):
         sites = e2e_refusal_sites(c, o)
         multi = any(st["a"] == "rawauth" and st["conc"] and st["reqs"].count("ok") > 1 for st in c["steps"])
         pend = any(st["a"] == "pendauth" for st in c["steps"])
+        hang = sorted({st["kind"] for st in c["steps"] if st["a"] == "hang"})
         return ("e2e:" + ("refusal@" + "+".join(sites) if sites else "no-refusal") + ("+concurrent-auths-on-one-conn" if multi else "") +
-                ("+fault-while-auth-pending" if pend else ""))
+                ("+fault-while-auth-pending" if pend else "") + ("+conn-ends-with-pending-%s-dials" % "/".join(hang) if hang else ""))
     return "stress:clears=%s,refused=%s" % ("0" if not o.get("clears") else ">0", "0" if not o.get("refused") else ">0")
 
 
@@ -738,7 +830,7 @@ def nontrivial(c, o):
     if c["k"] == "lin":
         return o.get("overlap", 0) > 0
     if c["k"] == "e2e":
-        return any(ob.get("result") == "refused" for ob in o.get("obs") or [])
+        return any(ob.get("result") == "refused" for ob in o.get("obs") or []) or any(st["a"] == "hang" for st in c["steps"])
     return bool(o.get("clears"))
 
 
